@@ -83,7 +83,7 @@ theorem drop_unstarted_no_value_callback_before_recovery (hl : p.lazy = true) (h
     | promiseFn e q f => simp [Src.isReady] at h
     | sharedReady r0 => simp [Src.isReady] at h
     | sharedContract q f => simp [Src.isReady] at h
-    | sharedKept q f pre => simp [Src.isReady] at h
+    | sharedKept e q f pre => simp [Src.isReady] at h
   | inr h =>
     cases h with
     | inl h =>
